@@ -31,7 +31,7 @@ type Case struct {
 
 func setup() {
 	c := ev.C()
-	c.Rule = "dependency graphs (NH <- NHG <- IPv4/IPv6/MPLS, cross-NI group references, shared next-hops, dependencies deleted/re-added or never arriving) emitted in every arrival order for subsets of a 15-op pool (<=4 ops quick, <=5 thorough; all permutations) and in random orders for larger rapid-drawn graphs; forward references allowed and disallowed; rib.RIB (L1) and server streams (L2). Oracle: relation model on the order of acknowledgements (each acknowledged op resolvable at its turn), completeness (no held op resolvable after any step, held-id hook), reference closure after every step, immediate FAILED when forward references are disallowed. Non-trivial = a call acknowledged >=2 held operations (transitive cascade) or a dependency was deleted while something waited for it; distinct by FNV-64 of the case JSON."
+	c.Rule = "dependency graphs (NH <- NHG <- IPv4/IPv6/MPLS, cross-NI group references, shared next-hops, dependencies deleted/re-added or never arriving) emitted in every arrival order for subsets of a 15-op pool (<=4 ops quick, <=5 thorough; all permutations) and in random orders for larger rapid-drawn graphs; forward references allowed and disallowed; rib.RIB (L1) and server streams (L2). Oracle: relation model on the order of acknowledgements (each acknowledged op resolvable at its turn), completeness (no held op resolvable after any step, held-id hook), reference closure after every step, immediate FAILED when forward references are disallowed. Non-trivial = a call acknowledged >=2 held operations (transitive cascade) or a dependency was deleted while something waited for it; distinct by FNV-64 of the case JSON. Later additions: doomed held REPLACE with another operation queued behind the same missing group; at L2 a bystander session with the same election id that goes away at a drawn step."
 	c.Assumptions = []string{
 		"payloads are schema-valid; ids unique per history",
 		"closure is only asserted while no single-instance flush happened (one generated graph in four contains a Flush)",
